@@ -426,7 +426,8 @@ def select(table: Table, *cols: Col | ColName | str) -> Pipeable:
 
     for col in cols:
         if isinstance(col, ColName | str) and col not in table:
-            raise ColumnNotFoundError(f"column `{col.ast_repr()}` does not exist in table `{table._ast.short_name()}`")
+            col_repr = col if isinstance(col, str) else col.ast_repr()
+            raise ColumnNotFoundError(f"column `{col_repr}` does not exist in table `{table._ast.short_name()}`")
         elif col not in table and col._uuid in table._cache.cols:
             raise ColumnNotFoundError(
                 f"cannot select hidden column `{col.ast_repr()}` again\n"
